@@ -64,6 +64,14 @@ class C09(Prop):
             yield Case('reduce', ('rowreduce', False, bs, t, key, zoo.fn(rng.choice([0, 1, 2])),
                                   rng.choice([None, None, ('k', 'n')])))
             yield Case('reduce', ('groupselect', False, bs, t, rng.choice([0, 1, 2, 3]), key, val))
+            # presorted=True on a table that is sorted by the key (values in any order within and across the groups)
+            import petl as etl
+            try:
+                ts = tuple(tuple(r) for r in etl.sort([list(r) for r in t], key))
+            except Exception:
+                ts = None
+            if ts is not None:
+                yield Case('reduce', ('groupselect', True, None, ts, rng.choice([0, 1, 2, 3, 2, 3]), key, val))
             yield Case('reduce', ('mergeduplicates', False, bs, t,
                                   rng.choice([hdr[0], (hdr[0],), (hdr[0], hdr[1]), hdr[1], (hdr[1], hdr[0]), hdr[-1]]),
                                   rng.choice([None, None, 'x'])))
